@@ -117,6 +117,13 @@ def run_case(case):
         return run_copolymer(case, rng)
     ast, units = chain(fam, params, case["unit"], case["blocks"], rng)
     text = ast.to_text()
+    from gbigsmiles.distribution import get_distribution
+
+    for dt in rd.decoy_texts(fam, params):  # other families with coinciding numbers are parsed first (shared state)
+        try:
+            get_distribution(dt)
+        except Exception:
+            pass
     lib = gbigsmiles.Molecule(text)
     ref = rd.make(fam, params)
     masses = [gen.fragment_info(u.name)[2] for u in units]
